@@ -12,13 +12,17 @@ pub struct Phase {
     pub seeded: bool,
 }
 
-pub const CLAIMED: [&str; 16] = ["C01", "C02", "C03", "C04", "C05", "C06", "C07", "C09", "C10", "C11", "C12", "C13", "C14", "C15", "C17", "C18"];
+pub const CLAIMED: [&str; 17] = ["C01", "C02", "C03", "C04", "C05", "C06", "C07", "C08", "C09", "C10", "C11", "C12", "C13", "C14", "C15", "C17", "C18"];
 
 const RT_BATCH: u64 = 64;
 
 pub fn phases(prop: &str, tier: Tier) -> Vec<Phase> {
     let q = tier == Tier::Quick;
     match prop {
+        "C08" => vec![
+            Phase { name: if q { "pair-sweep4" } else { "pair-sweep5" }, units: 13, seeded: false },
+            Phase { name: "pair-seeded", units: if q { 200 } else { 20_000 }, seeded: true },
+        ],
         "C15" => vec![Phase { name: if q { "c15-sweep4" } else { "c15-sweep5" }, units: crate::fam_histr::SWEEP_UNITS, seeded: false }],
         "C03" => vec![
             Phase { name: "c03-sweep", units: 14, seeded: false },
@@ -50,6 +54,8 @@ pub fn phases(prop: &str, tier: Tier) -> Vec<Phase> {
         "C10" => vec![
             Phase { name: if q { "c10-sweep3" } else { "c10-sweep5" }, units: 13, seeded: false },
             Phase { name: "hw-seeded", units: if q { 300 } else { 30_000 }, seeded: true },
+            Phase { name: if q { "pair-sweep3" } else { "pair-sweep5" }, units: 13, seeded: false },
+            Phase { name: "pair-seeded", units: if q { 100 } else { 10_000 }, seeded: true },
         ],
         "C11" => vec![Phase { name: if q { "crash-sampled" } else { "crash-full" }, units: if q { 160 } else { 4000 }, seeded: true }],
         "C12" => vec![Phase { name: "wfault", units: if q { 320 } else { 16_000 }, seeded: true }],
@@ -85,6 +91,22 @@ pub fn run_unit(prop: &str, phase: &str, unit: u64, seed: u64, _tier: Tier, ctx:
             }
         }
         "rt-grid" => crate::fam_rt::grid_unit(unit, ctx, ctl),
+        "pair-sweep3" => crate::fam_pair::sweep_unit(unit, 3, ctx, ctl),
+        "pair-sweep4" => crate::fam_pair::sweep_unit(unit, 4, ctx, ctl),
+        "pair-sweep5" => crate::fam_pair::sweep_unit(unit, 5, ctx, ctl),
+        "pair-seeded" => {
+            for j in 0..RT_BATCH {
+                let run = unit * RT_BATCH + j;
+                let mut r = Rng::new(derive(seed, &format!("{}/pair", prop), run));
+                let scn = crate::fam_pair::generate(&mut r);
+                if !ctl.before_case(|| Scenario::Pair(scn.clone())) {
+                    continue;
+                }
+                ctx.stats.evaluations += 1;
+                crate::fam_pair::execute(&scn, ctx);
+                ctl.after_case(ctx, || Scenario::Pair(scn.clone()));
+            }
+        }
         "c15-sweep4" => crate::fam_histr::sweep_unit(unit, 4, ctx, ctl),
         "c15-sweep5" => crate::fam_histr::sweep_unit(unit, 5, ctx, ctl),
         "c03-sweep" => crate::fam_foreign::c03_sweep_unit(unit, ctx, ctl),
@@ -160,6 +182,12 @@ pub fn meta(prop: &str) -> PropMeta {
             level: "exploration",
             rule: "c14-sweep: 13 types x n=1..4 records of pairwise different sizes x all n! physical orders x {no filler, short filler, filler that looks like a record header}, enumerated; foreign-seeded: seeded files with shuffled physical order, random even-length filler (some looking like record headers) before/between/after records, short-read schedules, BufReader capacities. distinct as for C03.",
             explanation: "The reference encoder places records at arbitrary offsets and writes the matching .shx; the real reader opened with_shx must yield one item per index entry in index order, each equal to the record at that entry, agree with read_nth_shape(i) and shape_count(). Reach counter: seeks issued during indexed iteration.",
+            exhaustive: true,
+        },
+        "C08" => PropMeta {
+            level: "exploration",
+            rule: "pair-sweep: 13 types x all histories up to length 4 (quick) / 5 (thorough) over {good pair a, good pair b, shape of another type, row missing a field, row with a value of the wrong field type} (a wrong-type shape never first) x ending {drop, write_shapes_and_records} x {Direct, BufWriter(64)}, enumerated completely, by-path route (Writer::from_path, Reader::from_path, shapefile::read) on the length-2 histories without failing rows; pair-seeded: seeded histories up to length 10 with generated shapes and stacks. distinct = distinct (type, history, ending, stack) tuples.",
+            explanation: "The complete Writer runs on three simulated devices. After every call (Direct stack) the three files are scanned physically and independently (records from byte 100, index entries, whole rows after the dbf header + stray bytes); at the end the counts come from the independent decoders and the dbf header, and the complete Reader must return exactly the successfully written pairs, shape i with the row whose idx is i. Histories containing a failing row hit the two known findings listed in known_findings.jsonl.",
             exhaustive: true,
         },
         "C15" => PropMeta {
